@@ -33,7 +33,7 @@ def chunks(tier, seed):
         out.append(('case_ite2', [dict(order=list(o[:2]), warm=w, seed=seed) for w in (0, 1)]))
         for k in range(4 if tier == 'quick' else 16):
             out.append(('case_ite3', [dict(order=list(o), seed=seed * 100 + k, warm=k % 2,
-                                           count=3000 if tier == 'quick' else 20000)]))
+                                           count=3000 if tier == 'quick' else 20000 * DEEP)]))
         out.append(('case_function_ops', [dict(order=list(o[:2]), seed=seed)]))
     return out
 
